@@ -36,6 +36,26 @@ macro_rules! own_kind {
         fn find_nb(n: &N, k: &usize) -> Option<N> {
             n.find_outbound(k)
         }
+        /// a traversal of the given kind from `n` whose closure is `f` (own.walk)
+        fn walk(n: &N, kind: &str, f: &mut dyn FnMut(&Edge<usize, DropVal, u32>)) {
+            let mut ff = |e: &Edge<usize, DropVal, u32>| -> bool {
+                f(e);
+                true
+            };
+            match kind {
+                "bfs" => drop(n.bfs().for_each(f).search()),
+                "dfs" => drop(n.dfs().for_each(f).search()),
+                "bfsp" => drop(n.bfs().for_each(f).search_path()),
+                "dfsp" => drop(n.dfs().for_each(f).search_path()),
+                "bfsT" => drop(n.bfs().transpose().for_each(f).search()),
+                "dfsT" => drop(n.dfs().transpose().for_each(f).search()),
+                "fbfs" => drop(n.bfs().filter(&mut ff).search()),
+                "fdfs" => drop(n.dfs().filter(&mut ff).search()),
+                "pre" => drop(n.preorder().for_each(f).search_nodes()),
+                "preT" => drop(n.preorder().transpose().for_each(f).search_nodes()),
+                _ => drop(n.postorder().for_each(f).search_nodes()),
+            }
+        }
         fn queries(a: &N, b: &N) {
             let _ = (a.is_connected(b.key()), a.find_outbound(b.key()).is_some(), a.find_inbound(b.key()).is_some(), b.find_inbound(a.key()).is_some(),
                      a.out_degree(), a.in_degree(), a.is_root(), a.is_leaf(), a.is_orphan(), a.iter_out().count(), a.iter_in().count());
@@ -53,6 +73,22 @@ macro_rules! own_kind {
         }
         fn find_nb(n: &N, k: &usize) -> Option<N> {
             n.find_adjacent(k)
+        }
+        fn walk(n: &N, kind: &str, f: &mut dyn FnMut(&Edge<usize, DropVal, u32>)) {
+            let mut ff = |e: &Edge<usize, DropVal, u32>| -> bool {
+                f(e);
+                true
+            };
+            match kind {
+                "bfs" | "bfsT" => drop(n.bfs().for_each(f).search()),
+                "dfs" | "dfsT" => drop(n.dfs().for_each(f).search()),
+                "bfsp" => drop(n.bfs().for_each(f).search_path()),
+                "dfsp" => drop(n.dfs().for_each(f).search_path()),
+                "fbfs" => drop(n.bfs().filter(&mut ff).search()),
+                "fdfs" => drop(n.dfs().filter(&mut ff).search()),
+                "pre" | "preT" => drop(n.order().pre().for_each(f).search_nodes()),
+                _ => drop(n.order().post().for_each(f).search_nodes()),
+            }
         }
         fn queries(a: &N, b: &N) {
             let _ = (a.is_connected(b.key()), b.is_connected(a.key()), a.find_adjacent(b.key()).is_some(), b.find_adjacent(a.key()).is_some(),
@@ -161,6 +197,10 @@ macro_rules! own_mod {
                             "own.graph" => set(&mut slots, p(1), Slot::Graph(G::new())),
                             "own.insert" => {
                                 let a = node_of(&slots, p(2))?;
+                                if !matches!(slots.get(p(1)), Some(Slot::Graph(_))) {
+                                    // (a shrunk program may have lost its `own.graph` line: the slot then starts as an empty container)
+                                    set(&mut slots, p(1), Slot::Graph(G::new()));
+                                }
                                 if let Some(Slot::Graph(g)) = slots.get_mut(p(1)) {
                                     g.insert(a);
                                 }
@@ -307,6 +347,39 @@ macro_rules! own_mod {
                                     })),
                                 };
                                 set(&mut slots, p(5), s);
+                            }
+                            "own.walk" => {
+                                // own.walk <kind> a n g x : a traversal from the node in slot a; on the n-th call of its closure
+                                // (or right after the traversal, if it is never called that often) the member x is taken out of
+                                // container g, isolated and dropped - the container may have been its only owner
+                                let a = node_of(&slots, p(2))?;
+                                let (nth, gi, x) = (p(3), p(4), p(5));
+                                let cell = std::cell::RefCell::new(std::mem::take(&mut slots));
+                                let calls = std::cell::Cell::new(0usize);
+                                let fired = std::cell::Cell::new(false);
+                                let act = || {
+                                    fired.set(true);
+                                    let taken = match cell.borrow_mut().get_mut(gi) {
+                                        Some(Slot::Graph(g)) => g.remove(&x),
+                                        _ => None,
+                                    };
+                                    if let Some(nx) = taken {
+                                        nx.isolate();
+                                        drop(nx);
+                                    }
+                                };
+                                let mut f = |_e: &Edge<usize, DropVal, u32>| {
+                                    if calls.get() == nth && !fired.get() {
+                                        act();
+                                    }
+                                    calls.set(calls.get() + 1);
+                                };
+                                walk(&a, t[1], &mut f);
+                                drop(a);
+                                if !fired.get() {
+                                    act();
+                                }
+                                slots = cell.into_inner();
                             }
                             "own.held" => {
                                 let mut h = slots.get(p(1)).map_or(vec![], |s| s.held());
@@ -567,5 +640,49 @@ pub fn gen_history(rng: &mut crate::rng::Rng, fl: &str, id: &str, nnodes: usize,
             }
         }
     }
+    l
+}
+
+/// a container that is the only owner of some connected members; traversals whose closure takes such a member
+/// out of the container, isolates it and drops it while the traversal is running
+pub fn gen_walk_case(rng: &mut crate::rng::Rng, fl: &str, id: &str) -> Vec<String> {
+    let mut l = vec![format!("case {fl} {id}")];
+    let nn = 3 + rng.below(4);
+    let g = nn;
+    for k in 0..nn {
+        l.push(format!("own.new {k} {k}"));
+    }
+    for _ in 0..nn + rng.below(2 * nn) {
+        l.push(format!("own.connect {} {} {}", rng.below(nn), rng.below(nn), rng.below(3)));
+    }
+    // a spine so that the traversals have something to walk
+    for k in 0..nn - 1 {
+        if rng.chance(70) {
+            l.push(format!("own.connect {k} {} 1", k + 1));
+        }
+    }
+    l.push(format!("own.graph {g}"));
+    for k in 0..nn {
+        l.push(format!("own.insert {g} {k}"));
+    }
+    // the harness keeps handles to the roots only
+    let keep: Vec<usize> = (0..nn).filter(|k| *k == 0 || rng.chance(30)).collect();
+    for k in 0..nn {
+        if !keep.contains(&k) {
+            l.push(format!("own.drop {k}"));
+        }
+    }
+    let kinds = ["bfs", "dfs", "bfsp", "dfsp", "bfsT", "dfsT", "fbfs", "fdfs", "pre", "preT", "post"];
+    for _ in 0..1 + rng.below(3) {
+        let a = keep[rng.below(keep.len())];
+        let sole: Vec<usize> = (0..nn).filter(|k| !keep.contains(k)).collect();
+        let x = if !sole.is_empty() && rng.chance(80) { sole[rng.below(sole.len())] } else { rng.below(nn) };
+        l.push(format!("own.walk {} {a} {} {g} {x}", kinds[rng.below(kinds.len())], rng.below(5)));
+        l.push(format!("own.held {g}"));
+    }
+    for k in keep {
+        l.push(format!("own.drop {k}"));
+    }
+    l.push(format!("own.drop {g}"));
     l
 }
